@@ -42,14 +42,22 @@ CLAIM = dict(
         '[C12_general_core_reproduces, C12_general_core_exact, C12_int_general_exact] func_int_general reproduces data in the '
         'span of the basis and, with full column rank, returns the coefficients (non-vacuity: C12_general_hyp_sat, '
         'C12_general_nonvacuous). '
-        'PARTIAL: [C12_sum_exact_1d_partial, C12_sum_full_exact_1d_partial] in ONE variable func_sum (any box) and '
-        'func_sum_full (symmetric box) equal F(b)-F(a) for an antiderivative F of the interpolated polynomial; for d>1 only the '
-        'algebraic formula and the 1-D weights are proved. [C12_diff_matrix_exact_partial] func_diff_matrix gives exact derivatives (orders 1..3) of every polynomial of '
-        'degree < n at the nodes for every box ONLY for n in {2,3,4} (exact rational nodes, Qc; closed computation lifted by '
-        'linearity; [C12_diff_matrix_scaling] box scaling for all n); general n is validated numerically only. '
-        'NOT PROVED (numerical validation by the search on every thorough run / on failure): for d>1 that the '
-        'multi-dimensional integral of p equals the func_sum formula (Fubini on top of C12_func_sum_spec and C12_cheb_weights); '
-        'func_diff_matrix for n>4; '
+        '[C12_sum_exact, C12_sum_full_exact, C12_iint_cpoly, C12_iint_unique] INTEGRATION, any d: func_sum (any box a_k<b_k) and '
+        'func_sum_full (symmetric boxes) return the ITERATED integral over the box of the polynomial with coefficient tensor A '
+        '(the function func_get evaluates in the box); the integral is defined in the theorem as the iterated one-variable Newton '
+        'integral (F(b)-F(a) for an antiderivative F on R, innermost variables first) and is single-valued; no measure-theoretic '
+        'Fubini is claimed ([C12_sum_exact_1d] exhibits the antiderivative for d=1). '
+        '[C12_diff1_exact, C12_diff1_entries, C12_pval_deriv] DIFFERENTIATION, first derivative, every n>=2, every box, every m>=1: '
+        'the first matrix func_diff_matrix returns, applied to the values at the nodes cos(pi j/N) of any polynomial of degree < n, '
+        'gives 2/(b-a) p\'(x_r) at every node; the entries are (c_r/c_c)(-1)^(r+c)/(x_r-x_c) with negative-row-sum diagonal '
+        '(proof: divided differences + DCT-I orthogonality against cos(N theta)). '
+        '[C12_int_general_tt_exact] whole-TT custom basis, given the lstsq contract: samples Y of any function in the span of the '
+        'basis (coefficient TT-tensor Cs, full-column-rank basis matrices) are fitted to Cs exactly and func_get with the user '
+        'basis returns that function. '
+        'PARTIAL: [C12_diff_matrix_exact_partial] derivative orders 2 and 3 (the code\'s recursion D_(i+1) = (i+1) Z (C diag(D_i) - D_i), '
+        'diagonal = minus row sums) are proved exact ONLY for n in {2,3,4} (exact rational nodes, Qc; closed computation lifted by '
+        'linearity; [C12_diff_matrix_scaling] box scaling for all n, all orders); orders >= 2 for n > 4 are validated numerically only. '
+        'NOT PROVED: higher-order differentiation matrices for n > 4; '
         'floating-point rounding ("up to rounding" in the property).'),
     note=('The model is tied to /repo on every run: exact-node Qc stream (n_k in {2,3,4}, all eight routines + diff '
           'matrices + error classes), float stream with recorded numpy cos/sin tables (n_k <= 12, both kinds), '
@@ -65,7 +73,8 @@ TRUSTED = ['Coq 8.16.1 kernel + vm_compute (case evaluation; closed Qc computati
            'oracle contract of scipy.linalg.lstsq (zero residual on consistent systems; validated on every recorded call)',
            'Coq Reals axioms (ClassicalDedekindReals, functional extensionality) for the statements at R',
            'IEEE rounding is not modelled in the theorems (float instance is executed only, agreement 1e-9 relative)']
-ASSUMPTIONS = ['at R the trigonometric oracles are cs N m = cos(pi m/N), sn N m = sin(pi m/N)',
+ASSUMPTIONS = ['at R the trigonometric oracles are cs N m = cos(pi m/N), sn N m = sin(pi m/N), '
+               'ss N i j = 2 sin((th_i+th_j)/2) sin((th_i-th_j)/2), th_k = k pi/N (func_diff_matrix)',
                'lstsq_ok k H M for the calls made (func_int_general only)']
 TIME_LIMIT = {'quick': 900, 'thorough': 5400}
 
